@@ -3,10 +3,10 @@
 # quick check of its own property, in two parallel streams on scratch worktrees; logs "SEED <id> check=<C> exit=<n>".
 src=${SEED_SRC:-/verif/seeded}
 log=${1:-/tmp/seed/final}
-ids=$(ls $src | grep -E '^(r2_)?C[0-9][0-9]_[0-9]$')
+ids=$(ls $src | grep -E '^(r[0-9]_)?C[0-9][0-9]_[0-9]$')
 a=(); b=(); i=0
 for s in $ids; do if [ $((i%2)) -eq 0 ]; then a+=($s); else b+=($s); fi; i=$((i+1)); done
-run() { wt=$1; shift; for s in "$@"; do p=$(echo $s | sed 's/^r2_//; s/_.*//'); VERIF_JOBS=${VERIF_JOBS:-4} /verif/tools/run_seed_wt.sh $src/$s $p quick $wt; done; }
+run() { wt=$1; shift; for s in "$@"; do p=$(echo $s | sed -E "s/^r[0-9]_//; s/_.*//"); VERIF_JOBS=${VERIF_JOBS:-4} /verif/tools/run_seed_wt.sh $src/$s $p quick $wt; done; }
 run /tmp/wt/run "${a[@]}" > ${log}_a.log 2>&1 &
 run /tmp/wt/run2 "${b[@]}" > ${log}_b.log 2>&1 &
 wait
